@@ -129,13 +129,43 @@ Definition run_default (ct : ctab) (v : value) : outcome :=
   | None => OOther
   end.
 
+(* ---- translation validation of the generated modules: the block structure of a class, as data ---- *)
+Inductive bdesc :=
+| DStruct (big : bool) (ms : list (Z * bool * Z * bool))   (* members: field index, is Data, size, signed *)
+| DLoop (f : fname).
+Definition sm_desc (m : smember) : Z * bool * Z * bool :=
+  match m with SMInt i n s _ => (i, false, n, s) | SMData i n => (i, true, n, false) end.
+Definition block_desc (b : block) : bdesc :=
+  match b with BStruct big ms => DStruct big (map sm_desc ms) | BLoop f => DLoop (cf_name f) end.
+Definition mdesc_eqb (a b : Z * bool * Z * bool) : bool :=
+  let '(i, d, n, s) := a in let '(i', d', n', s') := b in (i =? i') && Bool.eqb d d' && (n =? n') && (d || Bool.eqb s s').
+Definition bdesc_eqb (a b : bdesc) : bool :=
+  match a, b with
+  | DStruct x ms, DStruct y ms' =>
+      Bool.eqb x y && (Z.of_nat (length ms) =? Z.of_nat (length ms')) && forallb (fun p => mdesc_eqb (fst p) (snd p)) (combine ms ms')
+  | DLoop f, DLoop g => fname_eqb f g
+  | _, _ => false
+  end.
+Definition blocks_eqb (a b : list bdesc) : bool :=
+  (Z.of_nat (length a) =? Z.of_nat (length b)) && forallb (fun p => bdesc_eqb (fst p) (snd p)) (combine a b).
+(* what bisturi generated for class c (None = that direction runs the generic loop) against gen_blocks *)
+Definition blocks_agree (host : bool) (ct : ctab) (c : cid) (want_unpack want_pack : option (list bdesc)) : bool :=
+  match ct_get ct c with
+  | None => false
+  | Some k =>
+      let bs := map block_desc (gen_blocks host (cc_conf k) (cc_vectorize k) (cc_fields k) None) in
+      match want_unpack with Some w => cc_gen_unpack k && blocks_eqb bs w | None => negb (cc_gen_unpack k) end &&
+      match want_pack with Some w => cc_gen_pack k && blocks_eqb bs w | None => negb (cc_gen_pack k) end
+  end.
+
 (* ---- the cases the correspondence check evaluates ---- *)
 Inductive pcase :=
 | CUnpack (c : cid) (raw : bytes) (off : Z) (want : outcome)
 | CRound (c : cid) (raw : bytes) (off : Z) (want : outcome)
 | CPack (v : value) (want : outcome)
 | CDefault (v : value) (want : outcome)
-| CDefined (c : cid) (want : bool).
+| CDefined (c : cid) (want : bool)
+| CBlocks (c : cid) (want_unpack want_pack : option (list bdesc)).
 Definition agrees (host : bool) (tbl : list (cid * pclass)) (ct : ctab) (x : pcase) : bool :=
   match x with
   | CUnpack c raw off want => outcome_eqb (run_unpack host ct c raw off) want
@@ -143,6 +173,7 @@ Definition agrees (host : bool) (tbl : list (cid * pclass)) (ct : ctab) (x : pca
   | CPack v want => outcome_eqb (run_pack host ct v) want
   | CDefault v want => outcome_eqb (run_default ct v) want
   | CDefined c want => Bool.eqb (match ct_get ct c with Some _ => true | None => false end) want
+  | CBlocks c u p => blocks_agree host ct c u p
   end.
 Fixpoint bad_cases (host : bool) (tbl : list (cid * pclass)) (ct : ctab) (i : Z) (cs : list pcase) : list Z :=
   match cs with
